@@ -34,6 +34,18 @@ use radicle::storage::WriteRepository;
 use serde_json::Value;
 use verif_common::*;
 
+/// Totals over all cases (reported in the evidence notes): entries applied / rejected by the real evaluation.
+static OPS_APPLIED: std::sync::atomic::AtomicU64 = std::sync::atomic::AtomicU64::new(0);
+static OPS_REJECTED: std::sync::atomic::AtomicU64 = std::sync::atomic::AtomicU64::new(0);
+static OPS_TOTAL: std::sync::atomic::AtomicU64 = std::sync::atomic::AtomicU64::new(0);
+
+fn count_ops(total: usize, applied: usize, rejected: usize) {
+    use std::sync::atomic::Ordering::Relaxed;
+    OPS_TOTAL.fetch_add(total as u64, Relaxed);
+    OPS_APPLIED.fetch_add(applied as u64, Relaxed);
+    OPS_REJECTED.fetch_add(rejected as u64, Relaxed);
+}
+
 #[derive(Clone, Debug, PartialEq)]
 enum IdAct {
     Revision { title: u64, doc: Option<usize>, parent: Option<u64>, sig: usize },
@@ -493,6 +505,7 @@ fn elaborate(w: &mut World, repos: &mut Repos, input: &str) -> (String, Outcome)
         Err(e) => return (input.to_string(), Outcome::new(format!("harness-error:{e}")).trivial().tag("harness-error")),
     };
     let text = render(&case);
+    count_ops(case.ops.len() - 1, run.steps.iter().filter(|s| s.1).count(), run.steps.iter().filter(|s| !s.1).count());
     let mut o = Outcome::new(run.output.clone());
     if run.init.is_none() {
         o.tags.push("init-err".into());
@@ -807,6 +820,12 @@ fn main() {
                 repos = Repos { repos: BTreeMap::new() };
             }
         }
+    }
+    {
+        use std::sync::atomic::Ordering::Relaxed;
+        ctx.note("entries_total_non_root", OPS_TOTAL.load(Relaxed));
+        ctx.note("entries_applied", OPS_APPLIED.load(Relaxed));
+        ctx.note("entries_rejected", OPS_REJECTED.load(Relaxed));
     }
     ctx.finish(
         "whole identity-COB histories on real repositories: root document with 1-4 delegates, 1-3 further \
